@@ -180,6 +180,8 @@ func c10Run(c *verifeng.Chooser, depth, nreq int) {
 	batchFailed := map[*GetUtxoRequest]bool{}
 	_ = batchFailed
 	var fetchErrs, hashErrs int
+	slowNextBlock := false
+	var blockGate chan struct{}
 
 	scanner := NewUtxoScanner(&UtxoScannerConfig{
 		BestSnapshot: func() (*headerfs.BlockStamp, error) {
@@ -231,6 +233,14 @@ func c10Run(c *verifeng.Chooser, depth, nreq int) {
 			return false, nil
 		},
 		GetBlock: func(hash chainhash.Hash, _ ...QueryOption) (*btcutil.Block, error) {
+			if slowNextBlock {
+				// the block download takes its time: requests can
+				// arrive while the scan is inside it
+				slowNextBlock = false
+				g := make(chan struct{})
+				blockGate = g
+				<-g
+			}
 			if failNextBlock {
 				failNextBlock = false
 				fetchErrs++
@@ -349,6 +359,11 @@ func c10Run(c *verifeng.Chooser, depth, nreq int) {
 		if gate != nil {
 			g := gate
 			menu = append(menu, ev{fmt.Sprintf("scan proceeds at height %d", g.height), func() { gate = nil; g.release <- nil }})
+			menu = append(menu, ev{fmt.Sprintf("scan proceeds at height %d, its block download (if any) is slow", g.height), func() {
+				gate = nil
+				slowNextBlock = true
+				g.release <- nil
+			}})
 			menu = append(menu, ev{fmt.Sprintf("scan at height %d: the block hash lookup fails", g.height), func() {
 				gate = nil
 				hashErrs++
@@ -359,6 +374,10 @@ func c10Run(c *verifeng.Chooser, depth, nreq int) {
 				failNextBlock = true
 				g.release <- nil
 			}})
+		}
+		if blockGate != nil {
+			bg := blockGate
+			menu = append(menu, ev{"the slow block download returns", func() { blockGate = nil; close(bg) }})
 		}
 		for _, l := range lives {
 			l := l
@@ -392,6 +411,12 @@ func c10Run(c *verifeng.Chooser, depth, nreq int) {
 		if judge() {
 			return
 		}
+		if blockGate != nil {
+			close(blockGate)
+			blockGate = nil
+			continue
+		}
+		slowNextBlock = false
 		if gate != nil {
 			g := gate
 			gate = nil
@@ -445,6 +470,12 @@ func c10Run(c *verifeng.Chooser, depth, nreq int) {
 	}
 	for i := 0; i < 40 && !stopTask.Done(); i++ {
 		verifbubble.Wait()
+		if blockGate != nil {
+			close(blockGate)
+			blockGate = nil
+			continue
+		}
+		slowNextBlock = false
 		if gate != nil {
 			g := gate
 			gate = nil
